@@ -10,12 +10,15 @@
 
 namespace vs
 {
-constexpr int kMaxThreads = 8;
+constexpr int kMaxThreads = 12;
 
 struct Scenario {
   int nthreads = 0;
   // the last virtual thread becomes runnable only after all others have finished (epilogue)
   bool gated_last = false;
+  // threads with index >= gated_from become runnable only after all threads below have finished
+  // (a second wave); -1: none
+  int gated_from = -1;
   // controller context, deterministic arena active: build the objects under test, reset monitors
   std::function<void()> setup;
   // body of virtual thread `tid` (library TLS destructors run under the scheduler afterwards)
@@ -33,7 +36,7 @@ struct Scenario {
   // outcome string of a finished execution (distinct outcomes are counted as a vacuity guard)
   std::function<std::string()> outcome;
   // fake std::thread::id handles
-  unsigned long handles[kMaxThreads] = {1, 2, 3, 4, 5, 6, 7, 8};
+  unsigned long handles[kMaxThreads] = {1, 2, 3, 4, 5, 6, 7, 8, 9, 10, 11, 12};
 };
 
 struct Config {
@@ -111,6 +114,12 @@ void PlainPoint(const void *addr, bool write);
 size_t TracePos();
 int Cost();
 bool Replaying();
+// RAII: operations of the calling virtual thread are executed without scheduling points and without
+// being reported (an indivisible block, e.g. a long stall of the other threads or an oracle read)
+struct NoSchedule {
+  NoSchedule();
+  ~NoSchedule();
+};
 // trace annotation (shown in replay output)
 void Note(const char *s);
 
